@@ -60,6 +60,15 @@ def optLt (o : Option Int) (k : Int) : Bool :=
   | some v => decide (v < k)
   | none => false
 
+/-- `sys.maxsize`: `itertools.islice` rejects larger start / stop / step with ValueError -/
+def maxsize : Int := 9223372036854775807
+
+/-- `o is not None and o > k` -/
+def optGt (o : Option Int) (k : Int) : Bool :=
+  match o with
+  | some v => decide (v > k)
+  | none => false
+
 /-- the walk of `islice` over the values of the iterable: `cnt` = position of the head of the
     list, `nexti` = next position to emit. -/
 def isliceGo (stop : Option Nat) (step : Nat) : List Int → Nat → Nat → List Int
@@ -73,6 +82,7 @@ def isliceGo (stop : Option Nat) (step : Nat) : List Int → Nat → Nat → Lis
 def islice (xs : List Int) (start stop step : Option Int) : R (List Int) :=
   if optLt start 0 || optLt stop 0 then .error .ValueError
   else if optLt step 1 then .error .ValueError
+  else if optGt start maxsize || optGt stop maxsize || optGt step maxsize then .error .ValueError   -- "0 <= x <= sys.maxsize"
   else .ok (isliceGo (stop.map Int.toNat) ((step.getD 1).toNat) xs 0 ((start.getD 0).toNat))
 
 /-- how many values `islice` pulls from the iterable before it stops pulling (`none`: until the
@@ -185,6 +195,14 @@ def stops : Query → List Int → Bool
      | some c => decide ((ys.filter (fun d => if inc then decide (d ≥ t) else decide (d > t))).length > c.toNat)
      | none => false)
   | .between _ b inc, ys => ys.any (fun i => if inc then decide (i > b) else decide (i ≥ b))
+
+/-- the arguments stay within what `itertools.islice` accepts (`<= sys.maxsize`) wherever the query goes through it.
+    Outside, the generator path raises ValueError where list semantics (and the cache-complete path) do not:
+    known finding D-C12-maxsize. -/
+def small : Query → Bool
+  | .slice a b c => sliceListPath a b c || !(optGt a maxsize || optGt b maxsize || optGt c maxsize)
+  | .take k => decide ((k : Int) ≤ maxsize)
+  | _ => true
 
 /-- does the query look at `_cache_complete` (or `_len`, for `count`) before calling `iter(self)`?
     Plain iteration and `islice(rule, k)` go straight to `__iter__`. -/
